@@ -171,8 +171,7 @@ class PathEnv:
 
 def run(ctx):
     F = T.fields(ctx)
-    ctx.not_decided += ['names under a comprehension whose first iterable is a call when the walk filters by type (generator '
-                        'composition behaviour, documented in the property as a known disagreement)',
+    ctx.not_decided += ['generator composition behaviour beyond R16.1c/d (e.g. a walrus inside a lambda inside a comprehension)',
                         'load/store/free/local classification arithmetic on concrete programs']
     ctx.assumptions = ['scope oracle frozen from the language reference (4.2.2, 6.2.4, 8.7), PEP 572 and PEP 695']
 
@@ -244,11 +243,60 @@ def run(ctx):
     ctx.rule('R16.1c', 'walk_Comp yields exactly the first iterable (`a is first_iter`, first_iter = ast.generators[0].iter) and '
                        'walrus targets (parent NamedExpr, pfield target) of a nested comprehension to the enclosing scope', 3)
     wc = ctx.repo.funcs('fst_traverse', '_ScopeContext.walk_Comp')[0]
-    txt = norm(ast.unparse(wc.node), 100000)
-    for frag, why in [('first_iter = ast.generators[0].iter', 'first iterable selection'),
-                      ('a is first_iter', 'first iterable test'),
-                      ("f.parent.a.__class__ is NamedExpr and f.pfield.name == 'target'", 'walrus target test')]:
-        ctx.check('R16.1c', frag in txt, wc.module, wc.qualname, why, f'walk_Comp no longer contains `{frag}`', wc.lineno)
+    from ..struct import parent_map, enclosing_tests
+    wpar = parent_map(wc.node)
+    p0 = [x.arg for x in wc.node.args.args if x.arg != 'self'][0]
+    # (1) the first iterable is selected structurally: <T> = <param>.generators[0].iter
+    first = None
+    for n in walk_no_nested(wc.node):
+        if isinstance(n, ast.Assign) and isinstance(n.targets[0], ast.Name):
+            v = n.value
+            if isinstance(v, ast.Attribute) and v.attr == 'iter' and isinstance(v.value, ast.Subscript) and isinstance(v.value.value, ast.Attribute) and \
+                    v.value.value.attr == 'generators' and norm(v.value.value.value) == p0 and isinstance(v.value.slice, ast.Constant) and v.value.slice.value == 0:
+                first = n.targets[0].id
+    ctx.check('R16.1c', first is not None, wc.module, wc.qualname, 'first iterable selection',
+              'walk_Comp does not select `<comprehension>.generators[0].iter` (the only part of a comprehension evaluated in the enclosing scope)', wc.lineno)
+    # the enumerating loop `for f in <gen>` where <gen> = <node>.walk(...)
+    loops = [n for n in walk_no_nested(wc.node) if isinstance(n, ast.For) and isinstance(n.target, ast.Name)]
+    lv = loops[0].target.id if loops else None
+    yields = [y for y in walk_no_nested(wc.node) if isinstance(y, ast.Yield) and isinstance(y.value, ast.Name)]
+
+    def guards(y):
+        return [(t, tr) for t, tr in enclosing_tests(wc.node, y, wpar)]
+
+    def mentions(t, pred):
+        return any(pred(x) for x in ast.walk(t))
+
+    y_first = [y for y in yields if any(tr and mentions(t, lambda x: isinstance(x, ast.Compare) and isinstance(x.ops[0], ast.Is) and
+                                                      norm(x.comparators[0]) == first) for t, tr in guards(y))]
+    ctx.check('R16.1c', bool(y_first), wc.module, wc.qualname, 'first iterable test',
+              'no yield of the walked node is control dependent on `<node> is <first iterable>`: the first iterable is not handed to the enclosing scope',
+              wc.lineno)
+    y_walrus = [y for y in yields if any(tr and mentions(t, lambda x: isinstance(x, ast.Name) and x.id == 'NamedExpr') and
+                                         mentions(t, lambda x: isinstance(x, ast.Constant) and x.value == 'target') for t, tr in guards(y))]
+    ctx.check('R16.1c', bool(y_walrus), wc.module, wc.qualname, 'walrus target test',
+              'no yield is control dependent on "parent is a NamedExpr and field is target": walrus targets of a nested comprehension are not handed '
+              'to the enclosing scope (PEP 572)', wc.lineno)
+    # ---- R16.1d the locating walk is not constrained by the caller's filter; the filter is applied to what is yielded -----------------
+    ctx.rule('R16.1d', 'walk_Comp locates the first iterable / walrus targets with an unfiltered walk and applies the caller\'s `all` filter only '
+                       'to what it yields', 1)
+    filt_names = {'all'} | {n.targets[0].id for n in walk_no_nested(wc.node) if isinstance(n, ast.Assign) and isinstance(n.targets[0], ast.Name)
+                            and norm(n.value) == 'self.all'}
+    gens = [n.value for n in walk_no_nested(wc.node) if isinstance(n, ast.Assign) and isinstance(n.value, ast.Call) and call_name(n.value) == 'walk'
+            and loops and norm(n.targets[0]) == norm(loops[0].iter)]
+    if not gens:
+        raise AnalysisError('walk_Comp: the enumerating walk was not found')
+    g0 = gens[0]
+    a0 = g0.args[0] if g0.args else next((k.value for k in g0.keywords if k.arg == 'all'), None)
+    ctx.check('R16.1d', not (isinstance(a0, ast.Name) and a0.id in filt_names) and not (a0 is not None and norm(a0) == 'self.all'),
+              wc.module, wc.qualname, f'locating walk: {norm(g0, 60)}',
+              'the walk that has to find the first iterable and the walrus targets is filtered by the caller\'s `all` types: a first iterable of another '
+              'class (e.g. the Call in `for i in range(n)`) is never seen, so nothing under it reaches the enclosing scope', g0.lineno)
+    unfiltered = not (isinstance(a0, ast.Name) and a0.id in filt_names) and not (a0 is not None and norm(a0) == 'self.all')
+    for y in (y_first + y_walrus) if unfiltered else []:
+        gd = any(tr and mentions(t, lambda x: isinstance(x, ast.Call) and call_name(x) == 'check_all_param') for t, tr in guards(y))
+        ctx.check('R16.1d', gd, wc.module, wc.qualname, f'yield {norm(y.value)} @{"first" if y in y_first else "walrus"}',
+                  'a located node is yielded without asking the caller\'s filter', y.lineno)
 
     # ---- R16.2 binders ---------------------------------------------------------------------------------------------------
     ctx.rule('R16.2', 'every identifier field that binds a name is covered by scope_symbols(): its class is in the walk filter '
